@@ -4,7 +4,7 @@ From Coq Require Import List NArith Bool.
 From Coq Require Import ExtrOcamlBasic.
 From Rustun Require Import Codec.Filter Codec.DecodeLoop Codec.FilterCase.
 From Rustun Require Import Base.Tlv Agent.Reasm Agent.ReasmDrive Agent.ReasmRs.
-From Rustun Require Import Agent.Rto Agent.Model Agent.Monitors.
+From Rustun Require Import Agent.Rto Agent.Model Agent.Monitors Agent.AbsGlue.
 From Rustun Require Import Codec.Wire Codec.WireMon Codec.EncodeMsg.
 From Rustun Require Import Agent.ArcHeap Proofs.ArcHeapProofs.
 From Rustun Require Import Codec.AttrValue Codec.WireFull Codec.Message Codec.Keys Codec.Ignored.
@@ -19,4 +19,5 @@ Extraction "model.ml"
   AttrValue.av_case_dec AttrValue.av_case_enc AttrValue.av_wf
   WireFull.dec_ok_full WireFull.typed_attrs
   Message.encode_typed Message.decode_typed Message.monitor_C01 Message.ctor_of Message.quoted_roundtrips Message.ctor_class Keys.st_key Keys.lt_key
-  Ignored.monitor_C02ign Ignored.diff_bits.
+  Ignored.monitor_C02ign Ignored.diff_bits
+  AbsGlue.abs_packet AbsGlue.nonce_features AbsGlue.nonce_str.
